@@ -81,6 +81,12 @@ def check_vector(v):
     cmp("get_mask[sort_names]", v["mask"], lambda: dense(gs_.get_intervals(table(es), stranded=True).get_mask(), True))
     cmp("get_pileup[sort_names]", v["pileup"], lambda: dense(gs_.get_intervals(table(es)).get_pileup()))
     cmp("extended_to_size[sort_names]", v["extend"][2], lambda: _rows(gs_.get_intervals(table(es), stranded=True).extended_to_size(3).get_data(), names), length=3)
+    # a genome derived (with_ignored_added) from one that already leaves a contig out: the contigs and their sizes are those of this genome
+    from bionumpy.genomic_data.genome_context import ignore_underscores
+    gd_ = bnp.Genome.from_dict(dict(list(sizes.items())[:1] + [("chr1_alt", 3)] + list(sizes.items())[1:]), filter_function=ignore_underscores).with_ignored_added(["other_x"])
+    cmp("get_mask[derived genome]", v["mask"], lambda: dense(gd_.get_intervals(table(es), stranded=True).get_mask(), True))
+    cmp("get_pileup[derived genome]", v["pileup"], lambda: dense(gd_.get_intervals(table(es)).get_pileup()))
+    cmp("contigs[derived genome]", [list(names), int(sum(G))], lambda: (lambda p_: [list(p_.to_dict().keys()), int(sum(len(x) for x in p_.to_dict().values()))])(gd_.get_intervals(table(es)).get_pileup()))
     for d in (0, 1):
         cmp("merged", v["merged"][d], lambda: _rows(gi.sorted().merged(d).get_data(), names), distance=d)
     for L in (1, 2, 3):
@@ -127,6 +133,16 @@ def check_vector(v):
             return [[int(x) for x in np.asarray(r.to_array() if hasattr(r, "to_array") else r).tolist()] for r in bnp.compute(lazy[intervals])]
         cmp("streamed track[intervals]", v["under"], lambda: streamed(giu))
         cmp("streamed track[stranded intervals]", v["understr"], lambda: streamed(gi))
+        if len(G) >= 2:
+            # intervals tied to a separately built genome: the same contigs in the same order are accepted, in the opposite order refused
+            g_same = bnp.Genome.from_dict(dict(sizes))
+            cmp("streamed track[intervals of an equal genome]", v["under"], lambda: streamed(g_same.get_intervals(table(es), stranded=False)))
+            g_rev = bnp.Genome.from_dict(dict(reversed(list(sizes.items()))))
+            n += 1
+            o = outcome(lambda: streamed(g_rev.get_intervals(table(es), stranded=False)))
+            if o[0] == "ok":
+                bad.append({"what": "a streamed track was indexed by intervals of a genome listing the contigs in the opposite order, without an error",
+                            "tags": {"op": "streamed track[intervals of a reversed genome]", "boundary": at_boundary}, "vector": v, "expected": "an error", "observed": o[1]})
     # arithmetics.sort_intervals with the order of the contigs given explicitly (a list, a key function; also the opposite order)
     from bionumpy.arithmetics import sort_intervals as _sort
     from bionumpy.datatypes import Interval as _Iv3
